@@ -1,7 +1,8 @@
 """C11 - a saved or aged conversation state continues exactly like the live one.
 
 Domain : generated Colang 2 programs (vf/co2.py) extended with variables holding sets, regex objects, nested containers,
-         dicts with int/str keys and references to flows/actions/events; histories H = H1 . cut . H2 with the cut at every
+         dicts with int/str keys (generated dicts with keys of mixed kinds at any position, in every placement) and references to
+         flows/actions/events; helper flows activated by several flows that end / deactivate in drawn ways; histories H = H1 . cut . H2 with the cut at every
          position (enumerated per drawn case up to a bound) and cut in {save/restore, age > 5 s, both}.
 Oracle : differential. Two executions from scratch with identical tie-break choices: A feeds H1.H2 live; B feeds H1, applies
          json_to_state(state_to_json(state)) (which must not raise) and/or advances the (fake) clock by 6 s, then feeds H2.
@@ -23,12 +24,27 @@ RULE = (
     "a str key, $n nested containers) and 0-4 statements using them are inserted at drawn positions (send the value, index the dict by its "
     "int key, match with the regex, start an action with a set argument); history of 2-24 items; up to 3 drawn cut points x mode in "
     "{save, age, both, every (a round trip before each later event), every-age (round trip + 6 s idle before each later event)}; 3 of 14 generated cases run the shipped library (core, timing, avatars; generator shared with C09) with 1-2 cuts; 2 of 14 run a fixed program with state-dependent system actions (CheckValidFlowExistsAction, CheckFlowDefinedAction, CheckForActiveEventMatchAction, AddFlowsAction / RemoveFlowsAction of a dynamic flow) through the real RuntimeV2_x.process_events over generated histories (also enumerated: all histories of length 3 over five events); 1 of 14 is an LLMRails conversation (vf.pipeline Colang 2.x configuration: rails, dialog flows, `llm continuation`) of 2-4 turns in which the State object is handed back live vs. the JSON state returned by generate() (modes save, both = + 6 s idle per turn, rewind = an older snapshot restored on the same instance). Non-trivial = at the cut at least one child flow is running and a reference-typed or container variable is live "
-    "(save), or a finished instance older than the threshold exists (age); distinct by (program, history, cut, mode)."
+    "(save), or a finished instance older than the threshold exists (age); distinct by (program, history, cut, mode). "
+    "Two further dimensions of the state-machine cases (each drawn for about 1 in 3, labels mixed-* / shared-*): (a) mdict - a dict whose keys are of MIXED kinds "
+    "(1-5 unique keys from strings, ints, a float, False, None, a tuple; a STRING key first in 2 of 3 and a non-string key somewhere behind it; one value may itself be a "
+    "string-first mixed dict), placed as a flow variable, inside a list / a dict / an int-keyed or mixed-keyed dict, as a global (also nested) or as an action argument, and "
+    "1-3 statements at drawn positions that look it up by every key, test a non-string key with `in`, send it, or change it in place (uses mixed-index / -in / -send / -update / -deep); "
+    "(b) shared - one helper flow (a dedicated c11note that ends through its last statement and restarts / never ends / aborts / holds an action, or a parameterless generated helper) "
+    "ACTIVATED BY two or three extra flows c11act<i> that end in drawn ways (last statement, abort, StopFlow from another flow, `deactivate` of the helper before the last statement, never), "
+    "started at drawn positions, plus 0-2 `deactivate <helper>` and 0-1 StopFlow / further `activate` statements at drawn positions of drawn flows (half of these cases in an ageing mode); "
+    "label cut-with-ended-helper-under-running-activator = at a cut a fully deactivated, ended helper instance is still listed as child of a running activator. "
+    "Enumerated: every rich use x 2 positions x every cut x 4 modes; activated flows restarting (single activator); two-activator programs (activator kinds finish / abort / stopped / tidy squared x "
+    "0-2 deactivations by a third flow x helper tails x all orders of the three events x every cut x age, partly every-age); mixed-key dicts (string key first then int / float / bool / None / tuple key, "
+    "controls, every placement x all mixed uses x every cut x save, partly every-age); runtime-leg histories; the C09 families."
 )
 ASSUMPTIONS = [
     "cuts are between events (the only points at which the API hands out a state)",
     "sets are compared as sets; uids are renamed by first appearance; timestamps are dropped",
     "the interpreter's clock is the harness's fake clock; run A never advances it",
+    "the live run is executed once per case (it does not depend on the cut); its outputs from the cut on are compared with the run that is cut there",
+    "structural invariants are asserted on the restored state only as far as the state satisfied them before it was saved (what idle clean-up alone leaves behind - e.g. the uid of a discarded helper instance in the child list of its second activator - is C09's subject)",
+    "dict keys of a generated mixed-key dict are pairwise different under == (no True next to 1, no 2.0 next to 2); the tuple key is produced with list({..}.items())[0] since Colang has no tuple literal",
+    "`deactivate X` is the documented statement (docs/colang_2/language_reference/more-on-flows.rst, = send StopFlow(flow_id=X, deactivate=True)); the oracle does not depend on what it does - both runs execute the same program",
 ]
 WALL = {"quick": 170, "thorough": 1500}
 
@@ -62,6 +78,150 @@ USES = {
 FAILER = {"name": "c11failer", "params": [], "loop": None, "body": [{"k": "raw", "text": "match Ev0()"}, {"k": "raw", "text": '$z = 1 + "a"'}, {"k": "raw", "text": "send NeverSentByFailer()"}]}
 CTXHELPER = {"name": "ctxhelper", "params": [], "loop": None, "body": [{"k": "raw", "text": "match Ev3()"}, {"k": "raw", "text": '$status = "updated by helper"'}]}
 
+# ------------------------------------------------------------------------------------------------
+# dict variables with keys of MIXED kinds (JSON object keys are strings: the encoder has to notice a non-string key at ANY position)
+#   case["mdict"] = {"keys": [k0, k1, ...] (unique; ["t"] stands for a tuple key), "at": <placement>, "deep": bool}
+#   value of key i is "v<i>"; with deep the last value is itself a string-first mixed dict {"z": 0, 4: "deep"}
+MIXED_KEYS = ["k", "default", "1", 1, 2, 7, 2.5, False, None, ["t"]]  # pairwise different under == (no True/1, False/0, 2.0/2)
+MIXED_AT = {
+    # placement -> (prologue lines, path of the dict); {D} = the dict literal
+    "var": (["$md = {D}"], "$md"),
+    "list": (["$md = [0, {D}]"], "$md[1]"),
+    "dict": (['$md = {"in": {D}}'], '$md["in"]'),
+    "intdict": (['$md = {3: {D}, "s": 0}'], "$md[3]"),
+    "mixeddict": (['$md = {"s": 0, 3: {D}}'], "$md[3]"),
+    "global": (["global $mg", "$mg = {D}"], "$mg"),
+    "global-list": (["global $mg", '$mg = {"k": [{D}]}'], '$mg["k"][0]'),
+    "action-arg": (["start XCustomAction(p={D}) as $axm"], "$axm.start_event_arguments.p"),
+}
+MIXED_USES = ["mixed-index", "mixed-send", "mixed-in", "mixed-update", "mixed-deep"]
+TUPLE_KEY = '$mt = list({"a": 1}.items())[0]'  # Colang has no tuple literal; this one is ("a", 1)
+
+
+def _klit(k):
+    return "$mt" if isinstance(k, list) else smh.lit(k)
+
+
+def _key_kind(k):
+    return "tuple" if isinstance(k, list) else "none" if k is None else type(k).__name__
+
+
+def _mixed_tables(md):
+    """(prologue lines, {use name: statement text}) of one generated mixed-key dict."""
+    keys = md["keys"]
+    vals = [smh.lit(f"v{i}") for i in range(len(keys))]
+    if md.get("deep"):
+        vals[-1] = '{"z": 0, 4: "deep"}'
+    lit = "{" + ", ".join(f"{_klit(k)}: {v}" for k, v in zip(keys, vals)) + "}"
+    lines, path = MIXED_AT[md["at"]]
+    pro = ([TUPLE_KEY] if any(isinstance(k, list) for k in keys) else []) + [ln.replace("{D}", lit) for ln in lines]
+    nonstr = [k for k in keys if not isinstance(k, str)] or keys
+    shallow = keys[:-1] if md.get("deep") and len(keys) > 1 else keys
+    uses = {
+        "mixed-index": "send OutMK(" + ", ".join(f"a{i}={path}[{_klit(k)}]" for i, k in enumerate(shallow)) + ")",
+        "mixed-send": f"send OutMD(v={path})",
+        "mixed-in": f"$mi = {_klit(nonstr[-1])} in {path}\nsend OutMI(v=$mi)",
+        "mixed-update": f'({path}.update({{{_klit(nonstr[-1])}: "changed"}}))\nsend OutMU(v={path})',
+        "mixed-deep": f"send OutMZ(v={path}[{_klit(keys[-1])}][4])" if md.get("deep") else f"send OutMZ(v={path}[{_klit(keys[-1])}])",
+    }
+    return pro, uses
+
+
+@st.composite
+def _mdict(draw):
+    strs = [k for k in MIXED_KEYS if isinstance(k, str)]
+    others = [k for k in MIXED_KEYS if not isinstance(k, str)]
+    first = draw(st.sampled_from(strs * 5 + others))  # a string key first in 2 of 3 dicts
+    rest = draw(st.lists(st.sampled_from([k for k in MIXED_KEYS if k != first]), min_size=1, max_size=4, unique_by=repr))
+    if isinstance(first, str) and all(isinstance(k, str) for k in rest) and draw(st.integers(0, 3)) > 0:
+        rest.append(draw(st.sampled_from(others)))  # mostly at least one non-string key somewhere behind the first
+    return {"keys": [first] + rest, "at": draw(st.sampled_from(sorted(MIXED_AT))), "deep": draw(st.integers(0, 3)) == 0}
+
+
+# ------------------------------------------------------------------------------------------------
+# one helper flow ACTIVATED BY SEVERAL flows (its reference instance is listed as a child of every activator, but knows one parent only)
+#   case["shared"] = {"target": -1 (dedicated flow c11note) | j (j-th parameterless generated helper),
+#                     "note": {"ev": e, "tail": "end"|"never"|"abort"|"action", "loop": None|"NEW"},
+#                     "acts": [{"ev": e, "kind": "finish"|"abort"|"stopped"|"tidy"|"never"}, ...]}
+#   activator i = flow c11act<i>: activate T, wait for its event, then end in its own way (finish = last statement, abort = `abort`,
+#   stopped = an outside flow sends StopFlow for it, tidy = `deactivate T` before its last statement, never = keeps running)
+SHARED_USES = {
+    "sh-start-0": "start c11act0 as $sh0",  # (+ the flow that will stop it from outside, if the activator is of kind stopped)
+    "sh-start-1": "start c11act1 as $sh1",
+    "sh-start-2": "start c11act2 as $sh2",
+    "sh-activate": "activate {T}",
+    "sh-deactivate": "deactivate {T}",
+    "sh-stop-0": 'send StopFlow(flow_id="c11act0")',
+    "sh-stop-1": 'send StopFlow(flow_id="c11act1")',
+}
+
+
+def _shared_uses(sh, target):
+    tab = {k: v.replace("{T}", target) for k, v in SHARED_USES.items()}
+    for i, a in enumerate(sh["acts"]):
+        if a["kind"] == "stopped":
+            tab[f"sh-start-{i}"] += f"\nstart c11stop{i} as $shs{i}"
+    return tab
+
+
+def _raw_flow(name, lines, loop=None):
+    return {"name": name, "params": [], "loop": loop, "body": [{"k": "raw", "text": ln} for ln in lines]}
+
+
+def _shared_flows(sh, target):
+    """The extra flows of a shared-activation overlay (dedicated helper, activators, the flows that stop an activator from outside)."""
+    flows = []
+    if target == "c11note":
+        n = sh["note"]
+        body = [f"match Ev{n['ev']}()", "send OutNote()"]
+        if n["tail"] == "never":
+            body += ["match Never()"]
+        elif n["tail"] == "abort":
+            body += ["abort"]
+        elif n["tail"] == "action":
+            body = [f"match Ev{n['ev']}()", 'start UtteranceBotAction(script="note") as $na', "send OutNote()", f"match Ev{n['ev']}()"]
+        flows.append(_raw_flow("c11note", body, n.get("loop")))
+    for i, a in enumerate(sh["acts"]):
+        body = [f"activate {target}"]
+        if a["kind"] in ("stopped", "never"):
+            body += ["match Never()"]
+        else:
+            body += [f"match Ev{a['ev']}()"]
+            if a["kind"] == "tidy":
+                body += [f"deactivate {target}"]
+            body += [f"send OutAct{i}()"]
+            if a["kind"] == "abort":
+                body += ["abort"]
+        flows.append(_raw_flow(f"c11act{i}", body))
+        if a["kind"] == "stopped":
+            flows.append(_raw_flow(f"c11stop{i}", [f"match Ev{a['ev']}()", f'send StopFlow(flow_id="c11act{i}")', f"send OutStopped{i}()"]))
+    return flows
+
+
+@st.composite
+def _shared(draw, nflows):
+    """Overlay + the uses that wire it into the generated program: (shared, uses)."""
+    ev = st.integers(0, co2.EVENTS - 1)
+    kinds = ["finish", "finish", "abort", "stopped", "tidy", "tidy", "never"]
+    acts = [{"ev": draw(ev), "kind": draw(st.sampled_from(kinds))} for _ in range(draw(st.sampled_from([2, 2, 2, 3])))]
+    sh = {
+        "target": draw(st.sampled_from([-1, -1, 0, 1, 2])),
+        "note": {"ev": draw(ev), "tail": draw(st.sampled_from(["end", "end", "never", "abort", "action"])), "loop": draw(st.sampled_from([None, None, "NEW"]))},
+        "acts": acts,
+    }
+    main = nflows - 1
+    where = st.sampled_from([main, main, main] + list(range(nflows)))
+    pos = st.integers(0, 8)
+    fi = draw(where)
+    early = st.sampled_from([0, 0, 1, 2, 3, 5, 8])  # mostly started before the first wait of the flow
+    uses = [[fi, draw(early), f"sh-start-{i}"] for i in range(len(acts))]
+    for _ in range(draw(st.integers(0, 2))):
+        uses.append([draw(where), draw(pos), "sh-deactivate"])
+    for _ in range(draw(st.integers(0, 1))):
+        uses.append([draw(where), draw(pos), draw(st.sampled_from(["sh-stop-0", "sh-stop-1", "sh-activate"]))])
+    return sh, uses
+
+
 
 def budget(tier):
     return 4000 if tier == "quick" else 40000
@@ -77,7 +237,20 @@ def _case(draw):
             fi = draw(st.integers(0, len(prog["flows"]) - 1))
             uses.append([fi, draw(st.integers(0, 8)), draw(st.sampled_from(sorted(USES)))])
     cuts = draw(st.lists(st.integers(1, len(hist) - 1), min_size=1, max_size=3, unique=True))
-    return {"prog": prog, "hist": hist, "uses": uses, "cuts": sorted(cuts), "mode": draw(st.sampled_from(MODES)), "choices": draw(st.lists(st.integers(0, 3), max_size=3))}
+    case = {"prog": prog, "hist": hist, "uses": uses, "cuts": sorted(cuts), "mode": draw(st.sampled_from(MODES)), "choices": draw(st.lists(st.integers(0, 3), max_size=3))}
+    extra = draw(st.sampled_from(["", "", "", "mdict", "mdict", "shared", "shared", "shared", "mdict+shared"]))
+    if "mdict" in extra:
+        # a dict variable with keys of mixed kinds, looked up / sent / changed at drawn positions
+        case["mdict"] = draw(_mdict())
+        for _ in range(draw(st.integers(1, 3))):
+            uses.append([draw(st.integers(0, len(prog["flows"]) - 1)), draw(st.integers(0, 8)), draw(st.sampled_from(MIXED_USES))])
+    if "shared" in extra:
+        # one helper flow activated by two or three flows that end in drawn ways, deactivations at drawn positions
+        case["shared"], more = draw(_shared(len(prog["flows"])))
+        uses.extend(more)
+        if draw(st.booleans()):
+            case["mode"] = draw(st.sampled_from(["age", "both", "every-age"]))
+    return case
 
 
 MODES = ["save", "save", "age", "both", "every", "every-age"]
@@ -362,6 +535,8 @@ def enumerate_cases(tier):
             for mode in ("save", "age", "both", "every-age"):
                 yield {"prog": prog, "hist": base_hist, "uses": [[1, pos, use]], "cuts": list(range(1, len(base_hist))), "mode": mode, "choices": []}
     yield from _activation_cases()
+    yield from _two_activator_cases()
+    yield from _mixed_cases()
     yield from _runtime_cases()
     yield from _family_cases()
     # hand-written families shared with C09 (two flows sharing one co-won action, ...): every cut x mode, both tie-break outcomes
@@ -448,6 +623,74 @@ def _activation_cases():
             yield {"prog": {"flows": flows}, "hist": hist, "uses": [], "cuts": list(range(1, len(hist))), "mode": mode, "choices": []}
 
 
+def _two_activator_cases():
+    """One helper activated by two flows. The helper's activation count reaches zero while an activator is still running in three ways:
+    a third flow deactivates it d times (d = 2: on its own; d = 1: together with the end of one activator), or an activator of kind tidy
+    deactivates the helper itself before it ends. Activators end in four ways (last statement / abort / stopped from outside / tidy);
+    all orders of the three events x every cut x age (d = 1 also x every-age: a round trip and 6 s idle before every later event). The helper ends itself through its last statement and restarts
+    (tail end), keeps running (never), aborts itself (abort) or holds a started action (action)."""
+    import itertools
+
+    kinds = ["finish", "abort", "stopped", "tidy"]
+    for d in (0, 1, 2):
+        pairs = list(itertools.product(kinds, kinds))
+        if d == 2:
+            pairs = [p for p in pairs if "finish" in p]
+        for k0, k1 in pairs:
+            tails = ["end"]
+            if (k0, k1) in (("finish", "finish"), ("tidy", "finish"), ("finish", "tidy"), ("stopped", "abort")):
+                tails = ["end", "never", "abort", "action"]
+            for tail in tails:
+                sh = {"target": -1, "note": {"ev": 0, "tail": tail, "loop": None}, "acts": [{"ev": 1, "kind": k0}, {"ev": 2, "kind": k1}]}
+                starts = _shared_uses(sh, "c11note")
+                main = starts["sh-start-0"].split("\n") + starts["sh-start-1"].split("\n")
+                if d:
+                    main += ["match Ev3()"] + ["deactivate c11note"] * d + ["send OutMuted()"]
+                main += ["match Never()"]
+                prog = {"flows": _shared_flows(sh, "c11note") + [_raw_flow("main", main)]}
+                orders = itertools.permutations([1, 2, 3]) if d else itertools.permutations([1, 2])
+                if tail != "end":
+                    orders = list(orders)[:: 3 if d else 1]
+                for order in orders:
+                    o = [["ev", e, None] for e in order]
+                    hist = [["ev", 0, None]] + o[:2] + [["ev", 0, None]] + o[2:] + [["ev", 0, None]]
+                    for mode in ("age", "every-age") if d == 1 and tail == "end" else ("age",):
+                        yield {"prog": prog, "family": f"two-activators/{k0}-{k1}-d{d}-{tail}", "hist": hist, "uses": [], "cuts": list(range(1, len(hist))), "mode": mode, "choices": []}
+
+
+def _mixed_cases():
+    """Dict variables whose keys are of mixed kinds: a string key first and an int / float / bool / None / tuple key later (and the
+    controls: non-string key first, string keys only), in every placement (variable, inside list / dict, global, action argument),
+    looked up by every key, tested with `in`, sent, changed in place after the cut; every cut x save (the first dict also x every-age)."""
+    prog = {
+        "flows": [
+            {"name": "h0", "params": [], "loop": None, "body": [{"k": "match", "ev": 1, "v": None}, {"k": "send", "n": 1}]},
+            {
+                "name": "main",
+                "params": [],
+                "loop": None,
+                "body": [
+                    {"k": "startflow", "f": 0, "arg": None, "ref": 0},
+                    {"k": "match", "ev": 0, "v": None},
+                    {"k": "send", "n": 0},
+                    {"k": "match", "ev": 1, "v": None},
+                    {"k": "match", "ev": 0, "v": None},
+                    {"k": "send", "n": 2},
+                    {"k": "raw", "text": "match Never()"},
+                ],
+            },
+        ]
+    }
+    hist = [["ev", 0, None], ["ev", 1, None], ["ev", 2, 1], ["ev", 0, None], ["ev", 1, None]]
+    dicts = [["default", 1, 2], ["default", 2.5], ["k", False], ["k", None], ["k", ["t"]], ["k", "default", 7], ["1", 1], [1, "k"], ["k", "default"]]
+    places = sorted(MIXED_AT)
+    for i, keys in enumerate(dicts):
+        for at in places if i == 0 else [places[(i + j) % len(places)] for j in (0, 3, 5)]:
+            for deep, uses in ((False, [[1, 4, "mixed-index"], [1, 4, "mixed-in"], [1, 4, "mixed-send"]]), (True, [[1, 5, "mixed-update"], [1, 5, "mixed-deep"]])):
+                for mode in ("save", "every-age") if i == 0 else ("save",):
+                    yield {"prog": prog, "family": "mixed-dict", "mdict": {"keys": keys, "at": at, "deep": deep}, "hist": hist, "uses": uses, "cuts": list(range(1, len(hist))), "mode": mode, "choices": []}
+
+
 def build(case):
     if case.get("leg") == "lib":
         from vf.props import c09
@@ -462,7 +705,22 @@ def build(case):
     if any(u[2] == "failing-child" for u in case["uses"]):
         prog["flows"].insert(0, dict(FAILER))
         case = dict(case, uses=[[u[0] + 1, u[1], u[2]] for u in case["uses"]])
-    needed = sorted({USES[u[2]][0] for u in case["uses"]} - {None})
+    uses_tab = USES
+    mixed_pro = []
+    if case.get("mdict") or case.get("shared"):
+        uses_tab = dict(USES)
+        if case.get("mdict"):
+            mixed_pro, tab = _mixed_tables(case["mdict"])
+            uses_tab.update({k: (None, v) for k, v in tab.items()})
+        if case.get("shared"):
+            sh = case["shared"]
+            cands = [f["name"] for f in case["prog"]["flows"][:-1] if not f["params"]]
+            target = cands[sh["target"] % len(cands)] if sh["target"] >= 0 and cands else "c11note"
+            uses_tab.update({k: (None, v) for k, v in _shared_uses(sh, target).items()})
+            extra_flows = _shared_flows(sh, target)
+            prog["flows"] = extra_flows + prog["flows"]
+            case = dict(case, uses=[[u[0] + len(extra_flows), u[1], u[2]] for u in case["uses"]])
+    needed = sorted({uses_tab[u[2]][0] for u in case["uses"]} - {None})
     by_flow = {}
     for fi, pos, use in case["uses"]:
         by_flow.setdefault(fi % len(prog["flows"]), []).append((pos, use))
@@ -477,9 +735,11 @@ def build(case):
                 break
         for pos, use in ins:
             p = min(pos, limit)
-            for j, line in enumerate(USES[use][1].split("\n")):
+            for j, line in enumerate(uses_tab[use][1].split("\n")):
                 body.insert(p + j, {"k": "raw", "text": line})
-        fl["body"] = [{"k": "raw", "text": RICH_PROLOGUE[v]} for v in needed] + body
+        # the mixed-key dict is assigned at the top of the flows that use it
+        own = [{"k": "raw", "text": ln} for ln in mixed_pro] if any(u.startswith("mixed-") for _, u in ins) else []
+        fl["body"] = [{"k": "raw", "text": RICH_PROLOGUE[v]} for v in needed] + own + body
     return co2.render(prog)
 
 
@@ -502,6 +762,15 @@ def _run(text, case, cut, mode):
             if i == cut:
                 info["children_running"] = sum(1 for fs in st_.flow_states.values() if fs.parent_uid and smh.sm().is_active_flow(fs))
                 info["done_instances"] = sum(1 for fs in st_.flow_states.values() if fs.status.value in ("finished", "stopped"))
+                # an ended, fully deactivated instance that a still running flow (a later activator) lists as its child: the idle
+                # clean-up will discard the instance, the list keeps the uid
+                info["ended_under_activator"] = sum(
+                    1
+                    for fs in st_.flow_states.values()
+                    if smh.sm().is_active_flow(fs)
+                    for uid in fs.child_flow_uids
+                    if uid in st_.flow_states and st_.flow_states[uid].activated == 0 and st_.flow_states[uid].parent_uid != fs.uid and st_.flow_states[uid].status.value in ("finished", "stopped")
+                )
                 info["ref_vars"] = sum(1 for fs in st_.flow_states.values() if smh.sm().is_active_flow(fs) for v in fs.context.values() if not isinstance(v, (str, int, float, bool, type(None))))
             if mode in ("save", "both", "every", "every-age"):
                 from nemoguardrails.colang.v2_x.runtime.serialization import json_to_state, state_to_json
@@ -515,6 +784,11 @@ def _run(text, case, cut, mode):
                 except Exception as e:
                     raise Violation("json_to_state-raises:" + type(e).__name__, f"cut {cut}: {e!r}"[:300] + "\n" + text)
                 bad = smh.invariants(s.state)
+                if bad:
+                    # only what the round trip broke: an invariant that the state violated already before it was saved is C09's subject
+                    # (e.g. the uid of a discarded helper instance that stays in the child list of its second activator)
+                    pre = {k for k, _ in smh.invariants(st_)}
+                    bad = [b for b in bad if b[0] not in pre]
                 if bad:
                     raise Violation("restored-" + bad[0][0], f"cut {cut}: {bad[0][1]}\n{text}")
             if mode in ("age", "both", "every-age"):
@@ -569,12 +843,28 @@ def prop(case):
         return _rt_prop(case)
     text = build(case)
     labels = ["mode-" + case["mode"]] + sorted({"use-" + u[2] for u in case["uses"]}) + (["library"] if case.get("leg") == "lib" else [])
+    if case.get("family"):
+        labels.append("family-" + case["family"].split("/")[0])
+    if case.get("mdict"):
+        keys = case["mdict"]["keys"]
+        first_str = isinstance(keys[0], str)
+        later = sorted({_key_kind(k) for k in keys[1:]} - {"str"})
+        labels += ["mixed-dict", "mixed-at-" + case["mdict"]["at"], "mixed-first-" + ("str" if first_str else _key_kind(keys[0]))]
+        labels += ["mixed-str-first-then-" + k for k in later] if first_str else []
+    if case.get("shared"):
+        labels += ["shared-activation", "shared-target-" + ("generated" if case["shared"]["target"] >= 0 else "dedicated")]
+        labels += sorted({"shared-activator-" + a["kind"] for a in case["shared"]["acts"]})
+    ended_under = False
     nt = False
     compared = 0
+    live_all = None
     for cut in case["cuts"]:
         if cut >= len(case["hist"]):
             continue
-        live, _ = _run(text, case, cut, None)
+        if live_all is None:
+            # the live run does not depend on the cut: one execution serves all cut points (its outputs from the cut on are compared)
+            live_all, _ = _run(text, case, 0, None)
+        live = live_all[cut:]
         other, info = _run(text, case, cut, case["mode"])
         a, b = _canon_steps(live), _canon_steps(other)
         compared += 1
@@ -589,6 +879,9 @@ def prop(case):
             nt = True
         if case["mode"] in ("age", "both", "every-age") and info.get("done_instances", 0) >= 1:
             nt = True
+        ended_under = ended_under or info.get("ended_under_activator", 0) >= 1
     if any(x for x in [case["uses"]]):
         labels.append("rich-vars")
+    if ended_under:
+        labels.append("cut-with-ended-helper-under-running-activator")
     return ok(nt=nt, labels=labels, view={"program": text, "history": case["hist"][:10], "cuts": case["cuts"], "mode": case["mode"]}, counters={"cut_points_compared": compared})
